@@ -109,7 +109,7 @@ def h_concrete_overrank(ctx):
     m > rho (the interface matrices of the later cores are then rank deficient:
     minimum-norm least squares, not encodable): the tensor is recovered for
     every seed of the sample generator tried."""
-    ok, wf = True, True
+    ok, wf, same = True, True, True
     # (rank profiles that grow along the train with a cap between the largest rank and m: the blocks are compressed)
     for n, rho, m, cap in [([4, 4, 4], 1, 2, 1e12), ([4, 4, 4], 2, 3, 1e12), ([5, 4, 5, 4], 2, 3, 1e12), ([4, 4, 4], 1, 3, 3),
                            ([4, 5, 4], 2, 4, 4), ([4, 4, 4], [1, 1, 2, 1], 3, 2), ([5, 5, 5, 5], [1, 1, 2, 3, 1], 4, 3),
@@ -122,6 +122,8 @@ def h_concrete_overrank(ctx):
             sd = seed if seed < 3 else (np.random.default_rng(seed) if seed < 5 else None)
             I, idx, idm = teneva.sample_tt(n, r=m, seed=sd)
             y = teneva.get_many(T, I)
+            idm = np.asarray(idm)                 # (the block widths as an array: what a caller keeps between calls)
+            snap = (np.array(I, copy=True), np.array(idx, copy=True), idm.copy(), y.copy())
             try:
                 Z = teneva.svd_incomplete(I, y, idx, idm, e=1e-10, r=cap)
             except np.linalg.LinAlgError:
@@ -130,8 +132,19 @@ def h_concrete_overrank(ctx):
             wf = wf and well_formed(Z, n) and all(G.shape[2] <= cap for G in Z)
             F = teneva.full(T)
             ok = ok and bool(np.linalg.norm(teneva.full(Z) - F) <= 1e-6 * np.linalg.norm(F))
+            same = same and all(np.array_equal(a_, b_) for a_, b_ in zip(snap, (I, idx, idm, y)))
+            if seed == 0:
+                # the same sample set used for another tensor, without a cap
+                T2 = teneva.rand(n, m if isinstance(rho, int) else max(rho), seed=300)
+                try:
+                    Z2 = teneva.svd_incomplete(I, teneva.get_many(T2, I), idx, idm, e=1e-10)
+                    F2 = teneva.full(T2)
+                    ok = ok and bool(np.linalg.norm(teneva.full(Z2) - F2) <= 1e-6 * np.linalg.norm(F2))
+                except (ValueError, np.linalg.LinAlgError):
+                    ok = False
     ctx.claim('well_formed_ranks_le_cap', bool(wf))
     ctx.claim('recovers_target', bool(ok))
+    ctx.claim('sample_set_untouched', bool(same))
 
 
 def instances(tier):
